@@ -193,7 +193,8 @@ def _setup(draw, tier, history=False):
         spec["opt"] = draw(st.one_of(st.just({}), st.just({"nu": dim / 2}), st.floats(dim / 2, dim / 2 + 4.0).map(lambda v: {"nu": float(v)})))
     if cls == "Stable" and KNOWN["hankel_negative_spectrum"]:
         spec["opt"] = draw(st.one_of(st.just({}), st.floats(0.8, 2.0).map(lambda v: {"alpha": float(v)})))
-    base = draw(logfloat(0.05, 500.0))
+    # unit of length: mostly O(1); now and then micro / nano scale coordinates (periods and length scales of 1e-6 ... 1e-8)
+    base = draw(st.one_of(logfloat(0.05, 500.0), logfloat(0.05, 500.0), logfloat(0.05, 500.0), st.sampled_from([2e-6, 5e-7, 3e-5])))
     period = draw(periods(dim, base))
     cap = _mode_cap(cls, dim, history)
     modes = draw(per_axis(dim, even_counts(cap)))
@@ -541,6 +542,8 @@ def check_inputs(case, rec):
 def _apply_param(model, spec, op):
     """The same in-place change on the library model and on the reference spec."""
     name, f = op["name"], op["factor"]
+    if name == "len_scale" and spec["len_scale"] < 1e-4:
+        return  # absolute changes below 1e-8 are the known finding K7 of C11 (numpy.isclose's atol)
     if name in ("var", "len_scale"):
         spec[name] = float(spec[name] * f)
         setattr(model, name, spec[name])
